@@ -36,6 +36,9 @@ func coreC10(tier string) []RunSpec {
 		out = append(out, RunSpec{Profile: "core:edge", Params: map[string]int{"edge": 1, "k": k}})
 	}
 	out = append(out, RunSpec{Profile: "core:rotation-dleq", Params: map[string]int{"rotdleq": 1}})
+	for k := 0; k < 6; k++ {
+		out = append(out, RunSpec{Profile: "core:tampered-token", Params: map[string]int{"tampered": 1, "k": k}})
+	}
 	return out
 }
 
@@ -227,6 +230,75 @@ func (ww *WW) CheckTokenDLEQ(tok *OutToken) {
 			alter("amount", func(q *cashu.Proof) *secp256k1.PublicKey { q.Amount = altAmount(q.Amount); return otherK })
 		}
 		ww.rc.S.Probe("c10_token_tamper_checked")
+	}
+}
+
+// StepTamperedToken: the token channel alters one DLEQ field of one proof (optionally removing the DLEQ of an
+// earlier proof, as a co-signer handing over a partial token would); the receiving wallet must refuse it.
+func (ww *WW) StepTamperedToken() {
+	var tok *OutToken
+	for _, t := range ww.Tokens {
+		if !t.Claimed && t.Kind == "plain" && len(t.Proofs) >= 1 && t.Proofs[0].DLEQ != nil && t.Proofs[0].DLEQ.R != "" {
+			tok = t
+		}
+	}
+	if tok == nil {
+		ww.forceDLEQ = true
+		tok = ww.StepSend()
+		ww.forceDLEQ = false
+		if tok == nil || tok.Proofs[0].DLEQ == nil {
+			return
+		}
+	}
+	var to string
+	for _, w := range ww.Wallets {
+		if n := ww.node(w); w != tok.From && n != nil && n.W != nil {
+			to = w
+		}
+	}
+	if to == "" {
+		return
+	}
+	ps := make(cashu.Proofs, len(tok.Proofs))
+	copy(ps, tok.Proofs)
+	victim := ww.T.Choose("tt.victim", len(ps))
+	d := *ps[victim].DLEQ
+	field := ww.T.Choose("tt.field", 3)
+	switch field {
+	case 0:
+		d.E = flipHex(d.E)
+	case 1:
+		d.S = flipHex(d.S)
+	case 2:
+		d.R = flipHex(d.R)
+	}
+	ps[victim].DLEQ = &d
+	stripEarlier := victim > 0 && ww.T.Chance("tt.strip", 1, 2)
+	if stripEarlier {
+		for j := 0; j < victim; j++ {
+			ps[j].DLEQ = nil
+		}
+	}
+	ww.op(fmt.Sprintf("tampered-token field=%d victim=%d/%d stripEarlier=%v", field, victim, len(ps), stripEarlier))
+	s, err := MakeToken(ps, ww.mintURL(tok.Mint), keysetsOf(ps) == 1 && ww.T.Chance("tt.v4", 1, 2), true)
+	if err != nil {
+		return
+	}
+	var rerr error
+	ww.W.WalletOp(to, ww.name("tt."+to), nil, func(wl *wallet.Wallet) {
+		t, derr := cashu.DecodeToken(s)
+		if derr != nil {
+			rerr = derr
+			return
+		}
+		_, rerr = wl.Receive(t, false)
+	})
+	ww.rc.S.Probe("c10_tampered_token_delivered")
+	ww.rc.Nontrivial = true
+	if rerr == nil {
+		tok.Claimed = true
+		ww.W.Book.Violate("C10.tampered_token_accepted", fmt.Sprintf("field=%d|stripEarlier=%v", field, stripEarlier),
+			"wallet received a token in which the DLEQ proof of proof %d was altered (field %d, earlier proofs without DLEQ: %v)", victim, field, stripEarlier)
 	}
 }
 
@@ -481,6 +553,8 @@ func runC10(rc *RunCtx) {
 				ww.StepSend() // something to receive
 			}
 			ww.StepCorrupted(cv, rc.P("op", 0))
+		case rc.P("tampered", 0) == 1:
+			ww.StepTamperedToken()
 		case edge:
 			ww.StepEdge(m)
 		case rotdleq:
@@ -492,7 +566,9 @@ func runC10(rc *RunCtx) {
 			}
 			ww.StepReceive()
 		default:
-			switch T.Pick("c10.kind", 6, 3, 2, 1, 1) {
+			switch T.Pick("c10.kind", 6, 3, 2, 1, 1, 2) {
+			case 5:
+				ww.StepTamperedToken()
 			case 0:
 				ww.Step(T.Pick("step.kind", 2, 5, 5, 2, 1, 0, 1, 0, 1))
 			case 1:
